@@ -60,8 +60,11 @@ func init() {
 		Runs: func(tier string) []gosym.RunConfig {
 			rs := []gosym.RunConfig{
 				{Name: "vnet-mac", PkgPath: modulePath + "/vnet", Entry: "VerifRaceMAC", Sched: true, Races: true},
+				{Name: "vnet-tbf", PkgPath: modulePath + "/vnet", Entry: "VerifRaceTBF", Sched: true, Races: true},
 				{Name: "packetio-r1w1", PkgPath: modulePath + "/packetio", Entry: "VerifBufSched", Sched: true, Races: true, SmallInts: 32, Unwind: 6, AssertPrefix: "C19:",
 					Params: map[string]int64{"readers": 1, "writers": 1, "close": 1, "deadline": 0, "steps": 60}},
+				{Name: "packetio-r1c2", PkgPath: modulePath + "/packetio", Entry: "VerifBufSched", Sched: true, Races: true, SmallInts: 32, Unwind: 6, AssertPrefix: "C19:",
+					Params: map[string]int64{"readers": 1, "writers": 0, "close": 2, "deadline": 0, "steps": 60}},
 				{Name: "deadline-n2", PkgPath: modulePath + "/deadline", Entry: "VerifDeadline", Sched: true, Races: true, AssertPrefix: "C19:",
 					Params: map[string]int64{"n": 2, "obs": 0, "steps": 40, "kinds": -1}},
 			}
@@ -99,6 +102,28 @@ func init() {
 			"rand.Seed, time.Now are stubs; pion/logging has empty bodies",
 		},
 		Outside: []string{"statistical quality of math/rand", "streams longer than the bound (the filter is stateless: one step from any state is the same step)"}})
+	// ---- C15 token bucket filter
+	register(&Prop{ID: "C15", Pkgs: []HarnessPkg{{Dir: "vnet", Name: "vnet"}}, InitPkgs: []string{"vnet"}, InstrDirs: []string{"vnet"},
+		Runs: func(tier string) []gosym.RunConfig {
+			mk := func(k, rate, burst, queue, maxlen int64) gosym.RunConfig {
+				return gosym.RunConfig{Name: fmt.Sprintf("tbf-k%d-r%d-b%d-q%d", k, rate, burst, queue), Entry: "VerifTBF", Sched: true, Unwind: 8,
+					Params: map[string]int64{"k": k, "rate": rate, "burst": burst, "queue": queue, "maxlen": maxlen, "steps": 40}}
+			}
+			if tier == "thorough" {
+				return []gosym.RunConfig{mk(4, 1000000, 1000, 50000, 1500), mk(4, 1000000, 8000, 4000, 1500), mk(4, 64000, 1500, 3000, 1500), mk(5, 8000000, 2000, 50000, 1500)}
+			}
+			return []gosym.RunConfig{mk(3, 1000000, 1000, 50000, 1500), mk(3, 64000, 1500, 3000, 1500),
+				{Name: "queue-k5", Entry: "VerifChunkQueue", Params: map[string]int64{"k": 5}}}
+		},
+		Bounds: func(tier string) []string {
+			return []string{"3 (thorough: 4-5) arrivals of symbolic size 0..1500 bytes at symbolic instants (gaps 0..400 ms, nanosecond resolution), the listed (rate, burst, queue) configurations, one run each; every interval between two forwarded datagrams is judged"}
+		},
+		Assume: []string{
+			"float64 arithmetic is encoded over the reals (exact): IEEE-754 rounding is outside the claim; a counterexample is reported only if the native float64 code reproduces it",
+			"the run goroutine, the channel hand-over and time.Now/Since are executed under the goroutine model; each arrival is run to quiescence before the next one",
+			"pion/logging has empty bodies",
+		},
+		Outside: []string{"IEEE-754 rounding", "run-time changes of rate or burst (Set while running)", "configurations other than the listed ones", "more arrivals than the bound"}})
 	// ---- C20 XorBytes
 	register(&Prop{ID: "C20", Pkgs: []HarnessPkg{{Dir: "utils/xor", Name: "xor"}},
 		Runs: func(tier string) []gosym.RunConfig {
